@@ -106,7 +106,7 @@ async def _snapshot_resume(spec_fn, seed):
     return dict(snapshot=True, spec=spec, obs=obs, rec=rec2, n=n, running=running, steps=nsteps)
 
 
-from props._waitsnap import _wait_reference, _wait_snapshot_resume  # noqa: E402
+from props._waitsnap import _wait_reference, _wait_snapshot_resume, _idle_snapshot_resume  # noqa: E402
 
 
 def run(ctx):
@@ -182,7 +182,22 @@ def run(ctx):
         if r["store"] != sref:
             fails.append(dict(seed=seed, input=inp, why="state store after resume is %r, after the uninterrupted run %r (got<i> = tag of "
                               "the event that resolved the wait of invocation i with requirements {k: i})" % (r["store"], sref)))
-    ctx.programs += 2 * n2 + 2 * n3
+    # idle point: the run has asked for input and nothing is queued, running, buffered or waiting
+    n4, idle_ok = ctx.n(12, 200), 0
+    for i in range(n4):
+        seed = rng.randrange(1 << 30)
+        r = vloop.run(_idle_snapshot_resume(seed))
+        ctx.count(1, ("idlesnap", seed % 7))
+        got = (getattr(r["result"], "result", r["result"]), r["store"])
+        if r["done"] and r["exc"] is None and got == r["ref"]:
+            idle_ok += 1
+        else:
+            fails.append(dict(seed=seed, input=dict(template="ask (InputRequiredEvent) / answer, snapshot at the idle point", seed=seed),
+                              why="a run snapshotted while idle (waiting for a HumanResponseEvent) and resumed gives result %r store %r "
+                                  "(done=%s exception=%r, start step executed %d times after the resume); the uninterrupted run gives %r / %r"
+                                  % (got[0], got[1], r["done"], r["exc"], r["start_executions_after_resume"], r["ref"][0], r["ref"][1])))
+    ctx.suite("engine.snapshot_resume_idle", attempts=n4, same_as_uninterrupted=idle_ok)
+    ctx.programs += 2 * n2 + 2 * n3 + 2 * n4
     ctx.suite("engine.snapshot_resume_waiting", attempts=n3, snapshots=wsnaps, non_matching_event_after_resume=wrong_first)
     ctx.mark("engine")
     ctx.suite("engine.snapshot_resume", attempts=n2, snapshots=snaps, with_running_invocations=with_running,
